@@ -9,6 +9,10 @@ CONSTANTS
   DevDup = FALSE
   DevClash = FALSE
   DevBmDang = FALSE
+  DevReach = FALSE
+  DevZero = FALSE
+  DevFit = "none"
+  Limit = 20
   Allowed = {"ok"}
   Emit = TRUE
   EmitMod = 1
